@@ -1445,7 +1445,9 @@ def observe_find_all_files(root: Path, order: str, extensions=("f90",)):
         return sorted(real_listdir(path), reverse=rev)
 
     settings = SimpleNamespace(extensions=list(extensions), fixed_extensions=[], extra_filetypes={},
-                               src_dir=[Path(root) / "src"], exclude_dir=[], exclude=[])
+                               src_dir=[Path(root) / "src"], exclude_dir=[], exclude=[],
+                               # read by find_all_files since repair 7f6b57f (output directory excluded by location)
+                               output_dir=Path(root) / "doc")
     os.scandir, os.listdir = scandir, listdir
     try:
         found = FP.find_all_files(settings)
